@@ -53,6 +53,11 @@ class RecApp(Application):
             self.deferred.append(m)
         elif b == "raise":
             raise scripted_failure(m)
+        elif b == "keep_raise":
+            # the handler fails after it has put the request aside: the node answers for it (5012); whatever the
+            # application submits for that request later is a second answer
+            self.deferred.append(m)
+            raise scripted_failure(m)
         elif b == "none":
             return None
 
